@@ -1,9 +1,11 @@
 import OdxVerif.Proofs.AtomicRT
+import OdxVerif.Proofs.BytesRT
 import OdxVerif.Model.Decode
-/-! First composite proof tier ("flat"): explicitly or implicitly positioned integer VALUE parameters
-    (`A_INT32` in its four encodings, `A_UINT32` unencoded). The monadic `encodeParam` / `decodeParam` of the
-    model reduce to the pure steps `encStep` / `decStep`. Everything downstream uses only the interface
-    `Obj.raw / ofRaw / inRange / canon` with `Obj.raw_spec` and `Obj.canon_spec`. -/
+/-! First composite proof tier ("flat"): explicitly or implicitly positioned VALUE parameters over standard-length
+    types — `A_INT32` in its four encodings, `A_UINT32` unencoded, `A_FLOAT64`, `A_BYTEFIELD` (whole bytes).
+    The monadic `encodeParam` / `decodeParam` of the model reduce to the pure steps `encStep` / `decStep`.
+    Everything downstream uses only the interface `Obj.raw / ofRaw / inRange / canon` with `Obj.raw_spec` and
+    `Obj.canon_spec`. -/
 namespace OdxVerif.Codec
 open OdxVerif.Bits OdxVerif.OdxM
 
@@ -11,10 +13,12 @@ open OdxVerif.Bits OdxVerif.OdxM
 inductive Kind where
   | int32      -- A_INT32, encodings none / 1C / 2C / SM
   | uint32     -- A_UINT32, no encoding
+  | float64    -- A_FLOAT64: the value is its IEEE-754 binary64 bit pattern
+  | bytes      -- A_BYTEFIELD of BIT-LENGTH / 8 bytes
 deriving Repr, DecidableEq, Inhabited
 
-/-- an explicitly or implicitly positioned integer VALUE parameter with a standard-length type and the
-    identical compu method: the objects of the first composite proof tier -/
+/-- an explicitly or implicitly positioned VALUE parameter with a standard-length type and the identical compu
+    method: the objects of the first composite proof tier -/
 structure Obj where
   name : String
   bytePos : Option Nat
@@ -28,6 +32,8 @@ def Obj.bt (o : Obj) : BaseType :=
   match o.kind with
   | .int32 => .int32
   | .uint32 => .uint32
+  | .float64 => .float64
+  | .bytes => .bytefield
 
 def Obj.toParam (o : Obj) : Param :=
   .mk o.name o.bytePos o.bitPos (.value (.simple (.std o.bt o.enc o.hl o.bl none false) o.bt .identical) none)
@@ -36,8 +42,21 @@ def Obj.encOk (o : Obj) : Prop :=
   match o.kind with
   | .int32 => int32Known o.enc = true
   | .uint32 => o.enc = none ∨ o.enc = some .none_
+  | .float64 => o.enc = none ∨ o.enc = some .none_
+  | .bytes => o.enc = none ∨ o.enc = some .none_
 
-def Obj.ok (o : Obj) : Prop := o.encOk ∧ 1 ≤ o.bl ∧ o.bl ≤ 64
+/-- the sizes the kind admits: integers up to 64 bits (the limit of the bitstruct module), floats exactly 64,
+    byte fields whole bytes (the byte order flag is immaterial for them: `bytefield_hl_irrelevant`; the objects
+    carry `hl = true`) -/
+def Obj.sizeOk (o : Obj) : Prop :=
+  match o.kind with
+  | .int32 => o.bl ≤ 64
+  | .uint32 => o.bl ≤ 64
+  | .float64 => o.bl = 64
+  | .bytes => o.bl % 8 = 0 ∧ o.hl = true
+
+def Obj.ok (o : Obj) : Prop := o.encOk ∧ 1 ≤ o.bl ∧ o.sizeOk
+def Obj.isInt (o : Obj) : Prop := o.kind = .int32 ∨ o.kind = .uint32
 def Obj.bp (o : Obj) : Nat := o.bitPos.getD 0
 def Obj.k (o : Obj) : Nat := (o.bl + o.bp + 7) / 8
 def Obj.mask (o : Obj) : Nat := (2 ^ o.bl - 1) * 2 ^ o.bp
@@ -47,6 +66,8 @@ def Obj.raw (o : Obj) (v : IVal) : Nat :=
   match o.kind, v with
   | .int32, .int i => (int32Raw o.enc o.bl i).toNat
   | .uint32, .int i => i.toNat
+  | .float64, .flt b => b
+  | .bytes, .bytes b => ofBytesBE b
   | _, _ => 0
 
 /-- the internal value of a `bl`-bit pattern -/
@@ -54,12 +75,16 @@ def Obj.ofRaw (o : Obj) (r : Nat) : IVal :=
   match o.kind with
   | .int32 => .int (int32OfRaw o.enc o.bl r)
   | .uint32 => .int r
+  | .float64 => .flt r
+  | .bytes => .bytes (toBytesBE ((o.bl + 7) / 8) (r * 2 ^ ((8 - o.bl % 8) % 8)))
 
 /-- the internal values the object can represent -/
 def Obj.inRange (o : Obj) (v : IVal) : Prop :=
   match o.kind, v with
   | .int32, .int i => int32InRange o.enc o.bl i
   | .uint32, .int i => 0 ≤ i ∧ i < 2 ^ o.bl
+  | .float64, .flt b => b < 2 ^ o.bl
+  | .bytes, .bytes b => 8 * b.length = o.bl ∧ AllBytes b
   | _, _ => False
 
 /-- Boolean version of `inRange` -/
@@ -67,25 +92,28 @@ def Obj.accepts (o : Obj) (v : IVal) : Bool :=
   match o.kind, v with
   | .int32, .int i => int32RangeOk o.enc o.bl i
   | .uint32, .int i => decide (0 ≤ i) && decide (i < 2 ^ o.bl)
+  | .float64, .flt b => decide (b < 2 ^ o.bl)
+  | .bytes, .bytes b => decide (8 * b.length = o.bl) && b.all (fun x => decide (x < 256))
   | _, _ => false
 
 /-- the bit patterns that are the representation of some value (all but "negative zero") -/
 def Obj.canon (o : Obj) (r : Nat) : Prop :=
   match o.kind with
   | .int32 => canonRaw o.enc o.bl r
-  | .uint32 => r < 2 ^ o.bl
+  | _ => r < 2 ^ o.bl
 
 theorem Obj.accepts_iff (o : Obj) (ho : o.ok) (v : IVal) : o.accepts v = true ↔ o.inRange v := by
   unfold Obj.accepts Obj.inRange
-  cases o.kind <;> cases v <;> simp [rangeOk_iff o.enc o.bl ho.2.1]
+  cases o.kind <;> cases v <;> simp [rangeOk_iff o.enc o.bl ho.2.1, AllBytes]
 
 theorem Obj.raw_spec (o : Obj) (ho : o.ok) (v : IVal) (hr : o.inRange v) :
     o.raw v < 2 ^ o.bl ∧ o.ofRaw (o.raw v) = v := by
-  obtain ⟨hk, hbl, _⟩ := ho
+  obtain ⟨hk, hbl, hsz⟩ := ho
   unfold Obj.inRange at hr
   unfold Obj.raw Obj.ofRaw
   unfold Obj.encOk at hk
-  cases hkind : o.kind <;> cases v <;> simp only [hkind] at hr hk ⊢
+  unfold Obj.sizeOk at hsz
+  cases hkind : o.kind <;> cases v <;> simp only [hkind] at hr hk hsz ⊢
   · rename_i i
     obtain ⟨h0, h1, hinv⟩ := int32Raw_spec o.enc hk o.bl hbl i hr
     have : ((2 ^ o.bl : Nat) : Int) = (2:Int) ^ o.bl := by simp
@@ -95,24 +123,42 @@ theorem Obj.raw_spec (o : Obj) (ho : o.ok) (v : IVal) (hr : o.inRange v) :
     refine ⟨by omega, ?_⟩
     congr 1
     omega
+  · exact ⟨hr, trivial⟩
+  · rename_i b
+    obtain ⟨hlen, hall⟩ := hr
+    have hlt := ofBytesBE_lt b hall
+    rw [pow256, hlen] at hlt
+    refine ⟨hlt, ?_⟩
+    have e1 : (o.bl + 7) / 8 = b.length := by omega
+    have e2 : (8 - o.bl % 8) % 8 = 0 := by omega
+    rw [e1, e2, Nat.pow_zero, Nat.mul_one, toBytesBE_ofBytesBE b hall]
 
 theorem Obj.canon_lt (o : Obj) (r : Nat) (hc : o.canon r) : r < 2 ^ o.bl := by
   unfold Obj.canon at hc
   cases hkind : o.kind <;> simp only [hkind] at hc
   · exact hc.1
-  · exact hc
+  all_goals exact hc
 
 theorem Obj.canon_spec (o : Obj) (ho : o.ok) (r : Nat) (hc : o.canon r) :
     o.inRange (o.ofRaw r) ∧ o.raw (o.ofRaw r) = r := by
-  obtain ⟨hk, hbl, _⟩ := ho
+  obtain ⟨hk, hbl, hsz⟩ := ho
   unfold Obj.canon at hc
   unfold Obj.inRange Obj.raw Obj.ofRaw
   unfold Obj.encOk at hk
-  cases hkind : o.kind <;> simp only [hkind] at hc hk ⊢
+  unfold Obj.sizeOk at hsz
+  cases hkind : o.kind <;> simp only [hkind] at hc hk hsz ⊢
   · obtain ⟨h1, h2⟩ := int32_raw_roundtrip o.enc hk o.bl hbl r hc
     exact ⟨h1, h2⟩
   · have : ((2 ^ o.bl : Nat) : Int) = (2:Int) ^ o.bl := by simp
     exact ⟨⟨by omega, by omega⟩, by simp⟩
+  · exact ⟨hc, trivial⟩
+  · have e2 : (8 - o.bl % 8) % 8 = 0 := by omega
+    rw [e2, Nat.pow_zero, Nat.mul_one]
+    refine ⟨⟨by rw [toBytesBE_length]; omega, toBytesBE_allBytes _ _⟩, ?_⟩
+    apply ofBytesBE_toBytesBE_of_lt
+    rw [pow256]
+    have : 8 * ((o.bl + 7) / 8) = o.bl := by omega
+    rw [this]; exact hc
 
 /-- where the object goes: origin + BYTE-POSITION, or the cursor -/
 def Obj.pos (o : Obj) (origin cursor : Nat) : Nat :=
@@ -146,28 +192,51 @@ theorem rawOfUInt32_ok (enc : Option Enc) (he : enc = none ∨ enc = some .none_
 theorem encodeParam_obj (o : Obj) (ho : o.ok) (v : IVal) (hr : o.inRange v) (fuel : Nat) (s : EncState) :
     encodeParam (fuel + 2) o.toParam (some (.atom v)) s true = .ok ((), encStep o v s) := by
   obtain ⟨hlt, -⟩ := o.raw_spec ho v hr
-  obtain ⟨hk, hbl, hbl64⟩ := ho
+  obtain ⟨hk, hbl, hsz⟩ := ho
   have hb0 : o.bl ≠ 0 := by omega
-  have h64 : ¬ (64 < o.bl) := by omega
   have hge : ¬ (2 ^ o.bl ≤ o.raw v) := by omega
   have hmask : ∀ bp, ¬ (256 ^ ((o.bl + bp + 7) / 8) ≤ (2 ^ o.bl - 1) * 2 ^ bp) :=
     fun bp => Nat.not_le.mpr (mask_fits o.bl bp)
   unfold Obj.inRange at hr
   unfold Obj.encOk at hk
+  unfold Obj.sizeOk at hsz
   unfold Obj.raw at hge
-  cases hkind : o.kind <;> cases v <;> simp only [hkind] at hr hk hge
+  cases hkind : o.kind <;> cases v <;> simp only [hkind] at hr hk hge hsz
   · rename_i i
+    have h64 : ¬ (64 < o.bl) := by omega
     simp [Obj.toParam, Obj.bt, hkind, encodeParam, encodeDop, encodeDct, typeAdmits, emplaceAtomic, emplaceBytes, bind, pure,
       run_ite, run_bind, run_pure, run_getS, run_setS, run_modifyS, run_raise, BaseType.isNumeric,
       rawOfInt32_ok o.enc hk o.bl hbl i hr, hb0, hge, hmask, h64]
     cases hh : o.hl <;> cases hb : o.bytePos <;>
       simp [encStep, Obj.raw, hkind, Obj.pos, Obj.k, Obj.bp, Obj.mask, ord, toBytesBE_length, hh, hb]
   · rename_i i
+    have h64 : ¬ (64 < o.bl) := by omega
     simp [Obj.toParam, Obj.bt, hkind, encodeParam, encodeDop, encodeDct, typeAdmits, emplaceAtomic, emplaceBytes, bind, pure,
       run_ite, run_bind, run_pure, run_getS, run_setS, run_modifyS, run_raise, BaseType.isNumeric,
       rawOfUInt32_ok o.enc hk o.bl i hr.1 hr.2, hb0, hge, hmask, h64]
     cases hh : o.hl <;> cases hb : o.bytePos <;>
       simp [encStep, Obj.raw, hkind, Obj.pos, Obj.k, Obj.bp, Obj.mask, ord, toBytesBE_length, hh, hb]
+  · rename_i b
+    have hmask64 : ∀ bp, ¬ (256 ^ ((64 + bp + 7) / 8) ≤ (2 ^ 64 - 1) * 2 ^ bp) := by rw [← hsz]; exact hmask
+    have hge64 : ¬ (2 ^ 64 ≤ b) := by rw [← hsz]; exact hge
+    rcases hk with he | he <;>
+    · simp [Obj.toParam, Obj.bt, hkind, encodeParam, encodeDop, encodeDct, typeAdmits, emplaceAtomic, emplaceBytes, bind, pure,
+        run_ite, run_bind, run_pure, run_getS, run_setS, run_modifyS, run_raise, BaseType.isNumeric, odxassert, he, hsz,
+        hge64, hmask64]
+      cases hh : o.hl <;> cases hb : o.bytePos <;>
+        simp [encStep, Obj.raw, hkind, Obj.pos, Obj.k, Obj.bp, Obj.mask, ord, toBytesBE_length, hh, hb, hsz]
+  · rename_i b
+    obtain ⟨hlen, hall⟩ := hr
+    obtain ⟨hm8, hhl⟩ := hsz
+    have hfit1 : ¬ (o.bl < 8 * b.length) := by omega
+    have hfit2 : ¬ (8 * b.length < o.bl) := by omega
+    have hsub : 8 * b.length - o.bl = 0 := by omega
+    rcases hk with he | he <;>
+    · simp [Obj.toParam, Obj.bt, hkind, encodeParam, encodeDop, encodeDct, typeAdmits, emplaceAtomic, emplaceBytes, fitBytes,
+        bind, pure, run_ite, run_bind, run_pure, run_getS, run_setS, run_modifyS, run_raise, BaseType.isNumeric, odxassert, he,
+        hfit1, hfit2, hsub, hb0, hm8, hge, hmask, hhl]
+      cases hb : o.bytePos <;>
+        simp [encStep, Obj.raw, hkind, Obj.pos, Obj.k, Obj.bp, Obj.mask, ord, toBytesBE_length, hhl, hb]
 
 /-- the decoder's effect for one object -/
 def decStep (o : Obj) (d : DecState) : IVal × DecState :=
@@ -178,13 +247,14 @@ def decStep (o : Obj) (d : DecState) : IVal × DecState :=
 theorem decodeParam_obj (o : Obj) (ho : o.ok) (fuel : Nat) (d : DecState)
     (hlen : o.pos d.origin d.cursorByte + o.k ≤ d.msg.length) :
     decodeParam (fuel + 2) o.toParam d true = .ok (.atom (decStep o d).1, (decStep o d).2) := by
-  obtain ⟨hk, hbl, hbl64⟩ := ho
+  obtain ⟨hk, hbl, hsz⟩ := ho
   have hb0 : o.bl ≠ 0 := by omega
-  have h64 : ¬ (64 < o.bl) := by omega
   unfold Obj.encOk at hk
+  unfold Obj.sizeOk at hsz
   unfold Obj.pos Obj.k Obj.bp at hlen
-  cases hkind : o.kind <;> simp only [hkind] at hk
-  · unfold int32Known at hk
+  cases hkind : o.kind <;> simp only [hkind] at hk hsz
+  · have h64 : ¬ (64 < o.bl) := by omega
+    unfold int32Known at hk
     simp only [Bool.or_eq_true, decide_eq_true_eq] at hk
     have hk' : o.enc = none ∨ o.enc = some Enc.onec ∨ o.enc = some Enc.twoc ∨ o.enc = some Enc.sm := by
       rcases hk with ((h | h) | h) | h <;> simp [h]
@@ -194,7 +264,8 @@ theorem decodeParam_obj (o : Obj) (ho : o.ok) (fuel : Nat) (d : DecState)
       simp [Obj.toParam, Obj.bt, Obj.ofRaw, hkind, decodeParam, decodeDop, decodeDct, extractAtomic, extractCore, convertRaw,
         bind, pure, run_bind, run_pure, run_getS, run_modifyS, run_ite, run_raise, BaseType.isNumeric, hb0, hnl, hk', hb, h64,
         decStep, Obj.pos, Obj.k, Obj.bp]
-  · cases hb : o.bytePos <;> simp only [hb] at hlen
+  · have h64 : ¬ (64 < o.bl) := by omega
+    cases hb : o.bytePos <;> simp only [hb] at hlen
     all_goals
       have hnl : ¬ (d.msg.length < _ + (o.bl + o.bitPos.getD 0 + 7) / 8) := Nat.not_lt.mpr hlen
       rcases hk with he | he
@@ -202,6 +273,33 @@ theorem decodeParam_obj (o : Obj) (ho : o.ok) (fuel : Nat) (d : DecState)
         simp [Obj.toParam, Obj.bt, Obj.ofRaw, hkind, decodeParam, decodeDop, decodeDct, extractAtomic, extractCore, convertRaw,
           uint32OfRaw, bind, pure, run_bind, run_pure, run_getS, run_modifyS, run_ite, run_raise, BaseType.isNumeric, hb0, hnl,
           he, hb, h64, decStep, Obj.pos, Obj.k, Obj.bp]
+  · cases hb : o.bytePos <;> simp only [hb, hsz] at hlen
+    all_goals
+      have hnl : ¬ (d.msg.length < _ + (64 + o.bitPos.getD 0 + 7) / 8) := Nat.not_lt.mpr hlen
+      rcases hk with he | he
+      all_goals
+        simp [Obj.toParam, Obj.bt, Obj.ofRaw, hkind, decodeParam, decodeDop, decodeDct, extractAtomic, extractCore, convertRaw,
+          bind, pure, run_bind, run_pure, run_getS, run_modifyS, run_ite, run_raise, BaseType.isNumeric, odxassert, hsz, hnl,
+          he, hb, decStep, Obj.pos, Obj.k, Obj.bp]
+  · obtain ⟨hm8, hhl⟩ := hsz
+    cases hb : o.bytePos <;> simp only [hb] at hlen
+    all_goals
+      have hnl : ¬ (d.msg.length < _ + (o.bl + o.bitPos.getD 0 + 7) / 8) := Nat.not_lt.mpr hlen
+      rcases hk with he | he
+      all_goals
+        simp [Obj.toParam, Obj.bt, Obj.ofRaw, hkind, decodeParam, decodeDop, decodeDct, extractAtomic, extractCore, convertRaw,
+          bind, pure, run_bind, run_pure, run_getS, run_modifyS, run_ite, run_raise, BaseType.isNumeric, odxassert, hb0, hnl,
+          he, hb, hm8, hhl, decStep, Obj.pos, Obj.k, Obj.bp]
+
+/-- the byte-order flag of a byte field is immaterial (only numeric objects are byte-swapped) -/
+theorem bytefield_hl_irrelevant (enc : Option Enc) (hl : Bool) (bl : Nat) (m : Option Nat) (c : Bool) (v : IVal) :
+    encodeDct (.std .bytefield enc hl bl m c) v = encodeDct (.std .bytefield enc true bl m c) v ∧
+    decodeDct (.std .bytefield enc hl bl m c) = decodeDct (.std .bytefield enc true bl m c) := by
+  constructor
+  · cases m <;> cases v <;>
+      simp [encodeDct, emplaceAtomic, BaseType.isNumeric, stringCodec]
+  · cases m <;>
+      simp [decodeDct, extractAtomic, extractCore, convertRaw, BaseType.isNumeric]
 
 /-! ### CODED-CONST parameters over the same objects -/
 
@@ -214,17 +312,18 @@ theorem encodeParam_const_obj (o : Obj) (ho : o.ok) (v : IVal) (hr : o.inRange v
     (hpv : pv = none ∨ pv = some (.atom v)) (fuel : Nat) (s : EncState) :
     encodeParam (fuel + 1) (o.toConstParam v) pv s true = .ok ((), encStep o v s) := by
   obtain ⟨hlt, -⟩ := o.raw_spec ho v hr
-  obtain ⟨hk, hbl, hbl64⟩ := ho
+  obtain ⟨hk, hbl, hsz⟩ := ho
   have hb0 : o.bl ≠ 0 := by omega
-  have h64 : ¬ (64 < o.bl) := by omega
   have hge : ¬ (2 ^ o.bl ≤ o.raw v) := by omega
   have hmask : ∀ bp, ¬ (256 ^ ((o.bl + bp + 7) / 8) ≤ (2 ^ o.bl - 1) * 2 ^ bp) :=
     fun bp => Nat.not_le.mpr (mask_fits o.bl bp)
   unfold Obj.inRange at hr
   unfold Obj.encOk at hk
+  unfold Obj.sizeOk at hsz
   unfold Obj.raw at hge
-  cases hkind : o.kind <;> cases v <;> simp only [hkind] at hr hk hge
+  cases hkind : o.kind <;> cases v <;> simp only [hkind] at hr hk hge hsz
   · rename_i i
+    have h64 : ¬ (64 < o.bl) := by omega
     rcases hpv with rfl | rfl <;>
     · simp [Obj.toConstParam, Obj.bt, hkind, encodeParam, encodeDct, emplaceAtomic, emplaceBytes, bind, pure,
         run_ite, run_bind, run_pure, run_getS, run_setS, run_modifyS, run_raise, BaseType.isNumeric,
@@ -232,24 +331,47 @@ theorem encodeParam_const_obj (o : Obj) (ho : o.ok) (v : IVal) (hr : o.inRange v
       cases hh : o.hl <;> cases hb : o.bytePos <;>
         simp [encStep, Obj.raw, hkind, Obj.pos, Obj.k, Obj.bp, Obj.mask, ord, toBytesBE_length, hh, hb]
   · rename_i i
+    have h64 : ¬ (64 < o.bl) := by omega
     rcases hpv with rfl | rfl <;>
     · simp [Obj.toConstParam, Obj.bt, hkind, encodeParam, encodeDct, emplaceAtomic, emplaceBytes, bind, pure,
         run_ite, run_bind, run_pure, run_getS, run_setS, run_modifyS, run_raise, BaseType.isNumeric,
         rawOfUInt32_ok o.enc hk o.bl i hr.1 hr.2, hb0, hge, hmask, h64]
       cases hh : o.hl <;> cases hb : o.bytePos <;>
         simp [encStep, Obj.raw, hkind, Obj.pos, Obj.k, Obj.bp, Obj.mask, ord, toBytesBE_length, hh, hb]
+  · rename_i b
+    have hmask64 : ∀ bp, ¬ (256 ^ ((64 + bp + 7) / 8) ≤ (2 ^ 64 - 1) * 2 ^ bp) := by rw [← hsz]; exact hmask
+    have hge64 : ¬ (2 ^ 64 ≤ b) := by rw [← hsz]; exact hge
+    rcases hk with he | he <;> rcases hpv with rfl | rfl <;>
+    · simp [Obj.toConstParam, Obj.bt, hkind, encodeParam, encodeDct, emplaceAtomic, emplaceBytes, bind, pure,
+        run_ite, run_bind, run_pure, run_getS, run_setS, run_modifyS, run_raise, BaseType.isNumeric, odxassert, he, hsz,
+        hge64, hmask64]
+      cases hh : o.hl <;> cases hb : o.bytePos <;>
+        simp [encStep, Obj.raw, hkind, Obj.pos, Obj.k, Obj.bp, Obj.mask, ord, toBytesBE_length, hh, hb, hsz]
+  · rename_i b
+    obtain ⟨hlen, hall⟩ := hr
+    obtain ⟨hm8, hhl⟩ := hsz
+    have hfit1 : ¬ (o.bl < 8 * b.length) := by omega
+    have hfit2 : ¬ (8 * b.length < o.bl) := by omega
+    have hsub : 8 * b.length - o.bl = 0 := by omega
+    rcases hk with he | he <;> rcases hpv with rfl | rfl <;>
+    · simp [Obj.toConstParam, Obj.bt, hkind, encodeParam, encodeDct, emplaceAtomic, emplaceBytes, fitBytes,
+        bind, pure, run_ite, run_bind, run_pure, run_getS, run_setS, run_modifyS, run_raise, BaseType.isNumeric, odxassert, he,
+        hfit1, hfit2, hsub, hb0, hm8, hge, hmask, hhl]
+      cases hb : o.bytePos <;>
+        simp [encStep, Obj.raw, hkind, Obj.pos, Obj.k, Obj.bp, Obj.mask, ord, toBytesBE_length, hhl, hb]
 
 /-- decoding a CODED-CONST parameter returns what is on the wire (a mismatch with the constant is only warned about) -/
 theorem decodeParam_const_obj (o : Obj) (ho : o.ok) (v : IVal) (fuel : Nat) (d : DecState)
     (hlen : o.pos d.origin d.cursorByte + o.k ≤ d.msg.length) :
     decodeParam (fuel + 1) (o.toConstParam v) d true = .ok (.atom (decStep o d).1, (decStep o d).2) := by
-  obtain ⟨hk, hbl, hbl64⟩ := ho
+  obtain ⟨hk, hbl, hsz⟩ := ho
   have hb0 : o.bl ≠ 0 := by omega
-  have h64 : ¬ (64 < o.bl) := by omega
   unfold Obj.encOk at hk
+  unfold Obj.sizeOk at hsz
   unfold Obj.pos Obj.k Obj.bp at hlen
-  cases hkind : o.kind <;> simp only [hkind] at hk
-  · unfold int32Known at hk
+  cases hkind : o.kind <;> simp only [hkind] at hk hsz
+  · have h64 : ¬ (64 < o.bl) := by omega
+    unfold int32Known at hk
     simp only [Bool.or_eq_true, decide_eq_true_eq] at hk
     have hk' : o.enc = none ∨ o.enc = some Enc.onec ∨ o.enc = some Enc.twoc ∨ o.enc = some Enc.sm := by
       rcases hk with ((h | h) | h) | h <;> simp [h]
@@ -259,7 +381,8 @@ theorem decodeParam_const_obj (o : Obj) (ho : o.ok) (v : IVal) (fuel : Nat) (d :
       simp [Obj.toConstParam, Obj.bt, Obj.ofRaw, hkind, decodeParam, decodeDct, extractAtomic, extractCore, convertRaw,
         bind, pure, run_bind, run_pure, run_getS, run_modifyS, run_ite, run_raise, BaseType.isNumeric, hb0, hnl, hk', hb, h64,
         decStep, Obj.pos, Obj.k, Obj.bp]
-  · cases hb : o.bytePos <;> simp only [hb] at hlen
+  · have h64 : ¬ (64 < o.bl) := by omega
+    cases hb : o.bytePos <;> simp only [hb] at hlen
     all_goals
       have hnl : ¬ (d.msg.length < _ + (o.bl + o.bitPos.getD 0 + 7) / 8) := Nat.not_lt.mpr hlen
       rcases hk with he | he
@@ -267,5 +390,22 @@ theorem decodeParam_const_obj (o : Obj) (ho : o.ok) (v : IVal) (fuel : Nat) (d :
         simp [Obj.toConstParam, Obj.bt, Obj.ofRaw, hkind, decodeParam, decodeDct, extractAtomic, extractCore, convertRaw,
           uint32OfRaw, bind, pure, run_bind, run_pure, run_getS, run_modifyS, run_ite, run_raise, BaseType.isNumeric, hb0, hnl,
           he, hb, h64, decStep, Obj.pos, Obj.k, Obj.bp]
+  · cases hb : o.bytePos <;> simp only [hb, hsz] at hlen
+    all_goals
+      have hnl : ¬ (d.msg.length < _ + (64 + o.bitPos.getD 0 + 7) / 8) := Nat.not_lt.mpr hlen
+      rcases hk with he | he
+      all_goals
+        simp [Obj.toConstParam, Obj.bt, Obj.ofRaw, hkind, decodeParam, decodeDct, extractAtomic, extractCore, convertRaw,
+          bind, pure, run_bind, run_pure, run_getS, run_modifyS, run_ite, run_raise, BaseType.isNumeric, odxassert, hsz, hnl,
+          he, hb, decStep, Obj.pos, Obj.k, Obj.bp]
+  · obtain ⟨hm8, hhl⟩ := hsz
+    cases hb : o.bytePos <;> simp only [hb] at hlen
+    all_goals
+      have hnl : ¬ (d.msg.length < _ + (o.bl + o.bitPos.getD 0 + 7) / 8) := Nat.not_lt.mpr hlen
+      rcases hk with he | he
+      all_goals
+        simp [Obj.toConstParam, Obj.bt, Obj.ofRaw, hkind, decodeParam, decodeDct, extractAtomic, extractCore, convertRaw,
+          bind, pure, run_bind, run_pure, run_getS, run_modifyS, run_ite, run_raise, BaseType.isNumeric, odxassert, hb0, hnl,
+          he, hb, hm8, hhl, decStep, Obj.pos, Obj.k, Obj.bp]
 
 end OdxVerif.Codec
